@@ -892,6 +892,7 @@ int run_main(std::string const& self, std::string const& prop, int tier, u64 see
 
     int violations = 0;
     int machinery = 0;
+    bool reported_leak = false;
     std::vector<std::string> lines;
     std::vector<std::string> known_lines;
 
@@ -1015,6 +1016,118 @@ int run_main(std::string const& self, std::string const& prop, int tier, u64 see
         if (!reported) ++machinery;
     }
 
+    // ---- fresh-process cross-check: a worker executes thousands of plans in one process. For a few
+    // of them per worker the event log hash is compared with the hash the same plan gives in a process
+    // that has executed nothing before it. (The harness itself carries nothing from plan to plan:
+    // `hepsim selftest` compares hashes under different predecessor histories.)
+    u64 crosschecks = 0, cross_mismatch = 0;
+    for (auto const& w : ws)
+    {
+        if (w.san || violations != 0) continue;
+        Agg mine;
+        u64 last = ~0ULL;
+        bool done = false;
+        parse_worker_file(w.out, mine, &last, &done);
+        std::vector<std::pair<u64, u64>> seq;   // (index, hash) of the last incarnation of this worker, in order
+        for (auto const& h : mine.hashes) if (h.first >= w.start) seq.push_back(h);
+        if (seq.size() < 2) continue;
+        std::set<std::size_t> picks = {std::min<std::size_t>(seq.size() - 1, 300), std::min<std::size_t>(seq.size() - 1, 1500)};
+        for (std::size_t k : picks)
+        {
+            bool is_crash = false;
+            for (auto const& cp : crash_plans) is_crash = is_crash || cp.first == seq[k].first;
+            if (is_crash) continue;
+            Plan const p = plan_for(*ps, tier, seed, seq[k].first);
+            ChildOut const c = exec_forked(p, prop, "", 1);
+            if (c.crashed) continue;
+            ++crosschecks;
+            if (c.hash == seq[k].second) continue;
+            ++cross_mismatch;
+
+            bool is_known = false;
+            for (auto& kf : known)
+            {
+                if (kf.prop == prop && kf.tag == "depends-on-earlier-runs" && kf.key == p.scn)
+                {
+                    is_known = true;
+                    if (!kf.seen)
+                    {
+                        kf.seen = true;
+                        known_lines.push_back(fmt("KNOWN-FINDING: property=%s %s [depends-on-earlier-runs / %s]", prop.c_str(),
+                            kf.text.c_str(), p.scn.c_str()));
+                    }
+                }
+            }
+            if (is_known || reported_leak) continue;
+
+            auto write_seq = [&](std::string const& path, std::vector<u64> const& idxs) {
+                std::string t = fmt("hepsim-sequence 1\nprop=%s\ntier=%d\nseed=%llu\nindices=", prop.c_str(), tier,
+                    (unsigned long long) seed);
+                for (std::size_t i = 0; i != idxs.size(); ++i) t += fmt(i ? ",%llu" : "%llu", (unsigned long long) idxs[i]);
+                t += fmt("\n# the last plan gives another event log than in a process of its own: state carried over between integrations\n");
+                spit(path, t);
+            };
+
+            std::string const file = fmt("%s/replays/%s-depends-on-earlier-runs-%llu.seq", vd.c_str(), prop.c_str(),
+                (unsigned long long) seed);
+            std::vector<u64> idxs;
+            for (std::size_t i = 0; i <= k; ++i) idxs.push_back(seq[i].first);
+            write_seq(file, idxs);
+            std::string out;
+            int rc = run_child({self, "replay", file}, &out);
+            if (rc != 1)
+            {
+                std::printf("MACHINERY: property=%s run %llu gave hash %llx in its worker and %llx in a fresh process, and the worker's sequence does not reproduce that (exit %d)\n%s\n",
+                    prop.c_str(), (unsigned long long) seq[k].first, (unsigned long long) seq[k].second,
+                    (unsigned long long) c.hash, rc, out.c_str());
+                std::remove(file.c_str());
+                ++machinery;
+                continue;
+            }
+            // minimise: one predecessor is often enough
+            int attempts = 1;
+            std::string const scratch_seq = work + "/min.seq";
+            for (std::size_t back = 1; back <= 48 && back <= k; ++back)
+            {
+                write_seq(scratch_seq, {seq[k - back].first, seq[k].first});
+                ++attempts;
+                std::string o2;
+                if (run_child({self, "replay", scratch_seq}, &o2) == 1)
+                {
+                    write_seq(file, {seq[k - back].first, seq[k].first});
+                    idxs = {seq[k - back].first, seq[k].first};
+                    break;
+                }
+            }
+            // ... or a short tail of the sequence
+            if (idxs.size() > 2)
+            {
+                for (std::size_t len = 2; len < k; len *= 2)
+                {
+                    std::vector<u64> tail;
+                    for (std::size_t i = k - len; i <= k; ++i) tail.push_back(seq[i].first);
+                    write_seq(scratch_seq, tail);
+                    ++attempts;
+                    std::string o2;
+                    if (run_child({self, "replay", scratch_seq}, &o2) == 1)
+                    {
+                        write_seq(file, tail);
+                        idxs = tail;
+                        break;
+                    }
+                }
+            }
+            std::remove(scratch_seq.c_str());
+            reported_leak = true;
+            ++violations;
+            lines.push_back(fmt("VIOLATION property=%s replay=%s", prop.c_str(), file.c_str()));
+            lines.push_back(fmt("  oracle=depends-on-earlier-runs key=%s run=%llu scenario=%s minimised-in=%d", p.scn.c_str(),
+                (unsigned long long) seq[k].first, p.scn.c_str(), attempts));
+            lines.push_back(fmt("  run %llu gives another event log after %zu other plan(s) in the same process than in a process of its own",
+                (unsigned long long) seq[k].first, idxs.size() - 1));
+        }
+    }
+
     // ---- evidence
     {
         std::ostringstream j;
@@ -1091,6 +1204,8 @@ int run_main(std::string const& self, std::string const& prop, int tier, u64 see
         j << "  \"real_components\": [\"hep::plain/vegas/multi_channel and mpi_* integrators\", \"*_iteration functions\", \"checkpoints, results, serialisation\", \"hep::callback / hep::mpi_callback\", \"vegas_refine_pdf, multi_channel_refine_weights, discrete_distribution\", \"libstdc++ iostreams and std::ofstream (down to the system calls)\", \"libstdc++ random engines and generate_canonical\"],\n";
         j << "  \"stubbed_components\": [\"MPI library (shim: threads, seeded scheduler, seeded reduction order)\", \"kernel file system below fopen64/write/writev/fclose/rename/remove (in-memory model, process-kill crash model)\", \"std::cout buffer (capturing, can fail)\", \"user integrand / channel map / user callback (scripted)\", \"scripted counter based engines next to the standard ones\"],\n";
         j << "  \"known_findings_hit\": " << known_lines.size() << ",\n";
+        j << "  \"fresh_process_crosschecks\": " << crosschecks << ",\n";
+        j << "  \"fresh_process_mismatches\": " << cross_mismatch << ",\n";
         j << "  \"machinery_failures\": " << machinery << ",\n";
         j << "  \"worker_deaths\": " << crash_plans.size() << "\n";
         j << " },\n";
@@ -1128,8 +1243,72 @@ int run_main(std::string const& self, std::string const& prop, int tier, u64 see
 
 // ------------------------------------------------------------------------------------------------
 
+// A sequence file names plans by (property, tier, seed, index): the plans are executed in that order
+// in this process and the event log hash of the last one is compared with the hash the same plan
+// gives in a process that has executed nothing else. A difference means that something outside the
+// checkpoint - state the library keeps in the process - carried over from one integration to the next.
+int replay_sequence(std::string const& file, std::string const& text)
+{
+    std::string prop;
+    int tier = 0;
+    u64 seed = 0;
+    std::vector<u64> indices;
+    std::istringstream in(text);
+    std::string line;
+    while (std::getline(in, line))
+    {
+        if (line.compare(0, 5, "prop=") == 0) prop = line.substr(5);
+        else if (line.compare(0, 5, "tier=") == 0) tier = std::atoi(line.c_str() + 5);
+        else if (line.compare(0, 5, "seed=") == 0) seed = std::strtoull(line.c_str() + 5, nullptr, 10);
+        else if (line.compare(0, 8, "indices=") == 0)
+        {
+            std::istringstream li(line.substr(8));
+            std::string tok;
+            while (std::getline(li, tok, ',')) if (!tok.empty()) indices.push_back(std::strtoull(tok.c_str(), nullptr, 10));
+        }
+    }
+    PropSpec const* ps = find_prop(prop);
+    if (ps == nullptr || indices.empty())
+    {
+        std::fprintf(stderr, "cannot read sequence %s\n", file.c_str());
+        return 3;
+    }
+    Plan const last = plan_for(*ps, tier, seed, indices.back());
+
+    // the reference first, while this process is still untouched
+    ChildOut const alone = exec_forked(last, prop, "", 2);
+    if (alone.crashed || !alone.same)
+    {
+        std::printf("sequence %s: the last plan on its own crashed or is not deterministic\n", file.c_str());
+        return 2;
+    }
+
+    alarm(1800);
+    u64 h = 0;
+    for (u64 idx : indices)
+    {
+        Plan const p = plan_for(*ps, tier, seed, idx);
+        Report rep;
+        execute(p, rep);
+        h = rep.hash.h;
+    }
+    std::printf("sequence %s: %zu plans, last plan (run %llu, scenario %s) hash %llx after the others, %llx on its own\n",
+        file.c_str(), indices.size(), (unsigned long long) indices.back(), last.scn.c_str(), (unsigned long long) h,
+        (unsigned long long) alone.hash);
+    if (h != alone.hash)
+    {
+        std::printf("VIOLATION property=%s replay=%s\n", prop.c_str(), file.c_str());
+        return 1;
+    }
+    return 0;
+}
+
 int replay_main(std::string const& file, std::string const& expect)
 {
+    {
+        std::string const text = slurp(file);
+        if (text.compare(0, 15, "hepsim-sequence") == 0) return replay_sequence(file, text);
+    }
     Plan p;
     std::string err;
     if (!Plan::from_text(slurp(file), p, err))
